@@ -48,6 +48,7 @@ class BaseTranslateFilter:
 
     name = "base"
     re_vars = re.compile(r"(?<!%)%\((\w+)\)s")
+    re_percent = re.compile(r"(?<!%)%\(\w+\)s|%")
     with_context = True
 
     def __init__(
@@ -75,10 +76,19 @@ class BaseTranslateFilter:
                 for k in self.re_vars.findall(message_text)
             }
 
+        # Only `%(name)s` placeholders are interpolated. Any other percent sign
+        # is literal message text.
+        escaped = self.re_percent.sub(
+            lambda m: m.group() if len(m.group()) > 1 else "%%", message_text
+        )
+
+        if isinstance(message_text, Markup):
+            escaped = Markup(escaped)
+
         # Missing variables get replaced by the current `Undefined` type and we're
         # converting all values to a string, so a KeyError or a ValueError should
         # be impossible.
-        return message_text % _vars
+        return escaped % _vars
 
     def _resolve_translations(self, context: RenderContext) -> Translations:
         return cast(
